@@ -281,7 +281,7 @@ prop("C32",
 
 
 prop("C10",
-     units=["langframe", "lexerr", "fntables", "separators", "errprint", "fncall", "arrayprint", "boolentry", "internalform"],
+     units=["langframe", "lexerr", "fntables", "separators", "errprint", "fncall", "arrayprint", "boolentry", "internalform", "renamesheet", "defnames"],
      level="proof",
      claim="slices. English storage / localized display: Model::user_formula_to_internal stores the ENGLISH printing of the tree parsed in the active language (or, failing that, in "
            "English); Model::parse_internal_formula parses with the English locale and language and restores the parser's own; Model::internal_formula_to_display prints, in the "
